@@ -24,7 +24,7 @@ class FnContract:
                  is_property=False, setter=False, note=None, lets=None, await_havoc=None, trusted_reason=None,
                  pure=False, emits=None, opaque_calls=(), findings=(), no_inv=False, defs=(), bounded=None, replay_seeds=None, call_ensures=None,
                  call_modifies=None, ghosts=None, inline_calls=False, fresh_result=False,
-                 allow_decorators=(), skip_frame=None, loops_by_text=None):
+                 allow_decorators=(), skip_frame=None, loops_by_text=None, epilogue=None):
         self.cset = cset
         self.key = key
         self.file = file
@@ -57,6 +57,7 @@ class FnContract:
         self.fresh_result = fresh_result        # the result must be a new object per call (no memoisation)
         self.allow_decorators = list(allow_decorators)
         self.loops_by_text = dict(loops_by_text or {})   # loop-test fragment -> LoopSpec (fallback to ordinals)
+        self.epilogue = epilogue        # environment step run after a normal return, before the postconditions
         self.skip_frame = skip_frame            # reason why the frame (modifies) check is not made for this function
         self.inline_calls = inline_calls        # verified on its own AND executed (not summarised) at call sites
         self.ghosts = dict(ghosts or {})        # universally quantified specification variables (name -> shape)
